@@ -1,10 +1,173 @@
 (* Properties_C11: transient socket faults delay service but never corrupt, wedge or leak.
-   Listener side (Acceptor + sockets::accept classification, regenerated from the source),
-   classification of connect errors, the interrupted poll call.  The connection-level
-   statements (a fault is exactly a delay) are about Conn_Model and live in the second half. *)
-From Coq Require Import List ZArith Lia Bool Arith.
-From Muduo Require Import Gen_C11 C11_Model C11_Proofs.
+   Only statements, closed by [exact], each followed by Print Assumptions, and non-vacuity examples.
+
+   Part 1 - connections (Conn_Model, the model of C01 / C03 / C13): faults at the write, readv
+   and poll-event sites are ordinary environment inputs of the model ([Err e] answers to write
+   calls, [EvReadErr], [EvError]), so the stream, life-cycle and notification theorems of
+   Properties_C01 / C03 / C13 already quantify over every fault sequence.  What is added here:
+   a fault is EXACTLY a delay (transparency), the two anchored mechanisms on single steps, and the
+   errno classification of the CURRENT source (regenerated, Gen_Conn.v).
+   Part 2 - the listener (C11_Model: Acceptor::handleRead over the regenerated switch table of
+   sockets::accept), the classification of connect errors (regenerated switch of
+   Connector::connect; the retry behaviour itself is C12's), the poll call of both back-ends
+   (regenerated guards).
+   Tie: differential execution of both models against the real classes under scripted faults,
+   every faulted scenario also run as its fault-free twin (bin/check C11). *)
+From Coq Require Import List ZArith Lia Bool Arith NArith.
+From Coq.Strings Require Import Byte.
+From Muduo Require Import Gen_Consts Gen_Conn Gen_C11 C11_Model C11_Proofs
+                          Conn_Model Conn_Proofs Conn_Faults Conn_GenTie Conn_GenTieRead.
 Import ListNotations.
+
+(* ========================================================================================== *)
+(* Part 1: a transient fault on a connection is exactly a delay                                 *)
+(* ========================================================================================== *)
+(* HEADLINE.  Take any history - any state c to start from - and replace every transient fault
+   by the corresponding zero-progress outcome ([calm], below: a failed write of a non-empty block
+   becomes a write that took 0 bytes; a failed drain, a failed read, an error event, a failed
+   write of an empty block simply do not happen).  The calmed history is accepted, contains no
+   fault, and ends in THE SAME STATE c' - every field: wire, backlog, input buffer, state, write
+   and read interest, registration, functor queue (pending notifications included), half-close -
+   with the same events apart from error-log lines ([quiet]).  So no byte is lost, duplicated or
+   reordered, no callback is missed or repeated, nothing is wedged: whatever the fault-free
+   history guarantees (Properties_C01 / C03 / C13) the faulted one does.
+   [env_ok_run]: the kernel never fails the ZERO-LENGTH write of a queued empty block with a
+   transient error (write(fd, p, 0) on a socket returns 0); see C11_empty_block_fault_visible. *)
+Theorem C11_fault_transparent : forall ops c c' e,
+  run c ops = Ok (c', e) -> env_ok_run c ops ->
+  exists e', run c (flat_map calm ops) = Ok (c', e') /\ quiet e' = quiet e /\
+             forallb faultless (flat_map calm ops) = true.
+Proof. exact fault_transparent. Qed.
+Print Assumptions C11_fault_transparent.
+
+(* a transient kernel answer: the call failed with an errno that is not fatal for the connection
+   (EAGAIN / EWOULDBLOCK, EINTR, and any other errno except EPIPE and ECONNRESET) *)
+Theorem C11_transient_def : forall k, transient k = match k with Err e => negb (is_fatal e) | _ => false end.
+Proof. exact transient_unfold. Qed.
+Print Assumptions C11_transient_def.
+
+Theorem C11_calm_def : forall o,
+  calm o =
+  match o with
+  | Send d k => if transient k then match d with [] => [] | _ => [Send d (Accept 0)] end else [o]
+  | RunOne k => if transient k then [RunOne (Accept 0)] else [o]
+  | EvWritable k => if transient k then [] else [o]
+  | EvReadErr | EvError => []
+  | _ => [o]
+  end.
+Proof. exact calm_unfold. Qed.
+Print Assumptions C11_calm_def.
+
+Theorem C11_faultless_def : forall o,
+  faultless o =
+  match o with
+  | Send _ k | RunOne k | EvWritable k => negb (transient k)
+  | EvReadErr | EvError => false
+  | _ => true
+  end.
+Proof. exact faultless_unfold. Qed.
+Print Assumptions C11_faultless_def.
+
+Theorem C11_quiet_def : forall e,
+  quiet e = filter (fun x => match x with EvErrorLogged => false | _ => true end) e.
+Proof. exact quiet_unfold. Qed.
+Print Assumptions C11_quiet_def.
+
+Theorem C11_env_ok_def : forall c o,
+  env_ok c o =
+  match o with
+  | RunOne k => match pending c with FSend _ [] :: _ => transient k = false | _ => True end
+  | _ => True
+  end.
+Proof. exact env_ok_unfold. Qed.
+Print Assumptions C11_env_ok_def.
+
+Theorem C11_env_ok_run_def : forall c ops,
+  env_ok_run c ops =
+  match ops with
+  | [] => True
+  | o :: r => env_ok c o /\ match step c o with Ok (c1, _) => env_ok_run c1 r | _ => True end
+  end.
+Proof. exact env_ok_run_unfold. Qed.
+Print Assumptions C11_env_ok_run_def.
+
+(* the calmed history of a history is fault-free, and calming a fault-free op changes nothing *)
+Theorem C11_calm_faultless : forall o, forallb faultless (calm o) = true.
+Proof. exact calm_faultless. Qed.
+Print Assumptions C11_calm_faultless.
+
+Theorem C11_calm_idempotent : forall o, faultless o = true -> calm o = [o].
+Proof. exact calm_idem. Qed.
+Print Assumptions C11_calm_idempotent.
+
+(* anchored mechanism 1: a failed write counts as zero bytes written unless the error is fatal.
+   sendInLoop (either thread's block) queues the WHOLE block behind the backlog and arms write
+   interest; nothing reaches the wire; at most the high-water callback is queued.  handleWrite
+   changes nothing at all (the backlog stays queued, interest stays on). *)
+Theorem C11_write_fault_keeps_backlog :
+  (forall c o c' e d k p, step c o = Ok (c', e) -> send_of c o = Some (d, k, p) ->
+     transient k = true -> fin c = false ->
+     wire c' = wire c /\ outb c' = outb c ++ d /\ accepted c' = accepted c ++ d /\
+     (d <> [] -> writing c' = true) /\
+     (pending c' = p \/ exists n, pending c' = p ++ [FHighWater n])) /\
+  (forall c k c' e, step c (EvWritable k) = Ok (c', e) -> transient k = true ->
+     c' = c /\ quiet e = []).
+Proof. exact write_fault_keeps_backlog. Qed.
+Print Assumptions C11_write_fault_keeps_backlog.
+
+(* anchored mechanism 2: a failed read, and an error event, change no field of the connection -
+   not the input buffer, not the state, not the interest; they are only logged *)
+Theorem C11_read_fault_untouched : forall c c' e,
+  (step c EvReadErr = Ok (c', e) -> c' = c /\ e = [EvErrorLogged]) /\
+  (step c EvError = Ok (c', e) -> c' = c /\ e = [EvErrorLogged]).
+Proof. exact read_fault_untouched. Qed.
+Print Assumptions C11_read_fault_untouched.
+
+(* why [env_ok_run] is there: the one place where the code distinguishes a transient error from
+   "nothing written" is the zero-length write of an empty block, where the error suppresses the
+   write-complete callback (the callback is queued inside `if (nwrote >= 0)`) *)
+Theorem C11_empty_block_fault_visible :
+  exists c c1 c2 e1 e2, reach c /\
+    step c (RunOne (Err EAGAIN)) = Ok (c1, e1) /\ step c (RunOne (Accept 0)) = Ok (c2, e2) /\
+    pending c1 = [] /\ pending c2 = [FWriteComplete].
+Proof. exact empty_block_fault_visible. Qed.
+Print Assumptions C11_empty_block_fault_visible.
+
+(* ---- source: the errno classification of the direct write in the CURRENT sendInLoop ---------- *)
+(* `errno != EWOULDBLOCK` (not logged), `errno == EPIPE || errno == ECONNRESET` (fatal: the block
+   is dropped); EAGAIN is EWOULDBLOCK on this platform.  Moving an errno between the classes in
+   the source breaks this theorem (and C11_sendInLoop_is_source). *)
+Theorem C11_source_write_errno_classes : forall e,
+  sendInLoop_fatal_test (errno_code e) = is_fatal e /\
+  sendInLoop_not_wouldblock_test (errno_code e) = (match e with EAGAIN => false | _ => true end) /\
+  (is_fatal e = true <-> e = EPIPE \/ e = ECONNRESET) /\
+  errno_code EAGAIN = errno_EWOULDBLOCK.
+Proof. exact source_write_errno_classes. Qed.
+Print Assumptions C11_source_write_errno_classes.
+
+Theorem C11_sendInLoop_is_source : forall c d k, sendInLoop_src c d k = sendInLoop c d k.
+Proof. exact sendInLoop_is_source. Qed.
+Print Assumptions C11_sendInLoop_is_source.
+
+Theorem C11_handleWrite_is_source : forall c k, handleWrite_src c k = handleWrite c k.
+Proof. exact handleWrite_is_source. Qed.
+Print Assumptions C11_handleWrite_is_source.
+
+(* handleRead: `n > 0` message callback / `n == 0` handleClose / else log + handleError only *)
+Theorem C11_handleRead_is_source : forall c d, (rd_chan c && registered c)%bool = true ->
+  (0 < length d -> step c (EvReadData d) = handleRead_src c (Z.of_nat (length d)) d) /\
+  step c EvReadEOF = handleRead_src c 0 [] /\
+  step c EvReadErr = handleRead_src c (-1) [].
+Proof. exact handleRead_is_source. Qed.
+Print Assumptions C11_handleRead_is_source.
+
+Theorem C11_handleRead_dispatch : handleRead_dispatch = true.
+Proof. exact tie_read_dispatch. Qed.
+Print Assumptions C11_handleRead_dispatch.
+
+(* ========================================================================================== *)
+(* Part 2: the listener, connect, the poll call                                                 *)
+(* ========================================================================================== *)
 Local Open Scope Z_scope.
 
 (* the accept errors the property lists are in the non-fatal class of the CURRENT source *)
@@ -62,10 +225,28 @@ Theorem C11_accept_conservation : forall ops a, dead a = false ->
 Proof. exact conservation. Qed.
 Print Assumptions C11_accept_conservation.
 
+(* the poll call: an interrupted (or otherwise failed) epoll_wait / poll hands no channel to the
+   loop and the iteration goes on *)
 Theorem C11_poll_eintr : forall e, poll_iteration (PErr e) = (0%nat, true).
 Proof. exact poll_fault_iterates. Qed.
 Print Assumptions C11_poll_eintr.
 
+(* ... and that model IS the current EPollPoller::poll / PollPoller::poll: the three-way split
+   `numEvents > 0` / `numEvents == 0` / else re-assembled from the regenerated guards gives
+   [poll_iteration]; EINTR is not even logged (`savedErrno != EINTR`); channels are filled in
+   only in the first branch and no branch quits or aborts *)
+Theorem C11_poll_is_source :
+  (forall r, fst (poll_src epoll_poll_some_test epoll_poll_none_test epoll_poll_log_test r) = poll_iteration r) /\
+  (forall r, fst (poll_src ppoll_poll_some_test ppoll_poll_none_test ppoll_poll_log_test r) = poll_iteration r) /\
+  snd (poll_src epoll_poll_some_test epoll_poll_none_test epoll_poll_log_test (PErr errno_EINTR)) = false /\
+  snd (poll_src ppoll_poll_some_test ppoll_poll_none_test ppoll_poll_log_test (PErr errno_EINTR)) = false /\
+  epoll_poll_fills_only_when_some = true /\ epoll_poll_log_test_in_error_branch = true /\
+  ppoll_poll_fills_only_when_some = true /\ ppoll_poll_log_test_in_error_branch = true.
+Proof. exact poll_is_source. Qed.
+Print Assumptions C11_poll_is_source.
+
+(* connect: EINPROGRESS proceeds to watching writability; ECONNREFUSED / ENETUNREACH are in the
+   retry class; none of the three is in the give-up class (regenerated switch table) *)
 Theorem C11_connect_classify :
   zmem errno_EINPROGRESS connect_proceed = true /\
   zmem errno_ECONNREFUSED connect_retry = true /\
@@ -76,8 +257,25 @@ Theorem C11_connect_classify :
 Proof. exact listed_connect_faults_classified. Qed.
 Print Assumptions C11_connect_classify.
 
-(* non-vacuity: a listener with two pending connections under a persisting shortage *)
+(* ========================================================================================== *)
+(* Non-vacuity                                                                                  *)
+(* ========================================================================================== *)
+(* a listener with two pending connections under a persisting shortage *)
 Example ex_emfile :
   let a := client_connects (client_connects acc_init) in
   dead a = false /\ pendq a = 2%nat /\ pendq (starve a 2) = 0%nat /\ valved (starve a 2) = 2%nat.
 Proof. vm_compute. repeat split; reflexivity. Qed.
+
+(* a history with faults at every injection site of a connection and its calmed version: both
+   are accepted, end in the same state, and the hypothesis of the transparency theorem holds *)
+Example ex_faulty_twin :
+  flat_map calm ex_faulty =
+  [ Establish; Send [x61; x62; x63] (Accept 0); FSendCheck 2; FSendEnq 2 [x64];
+    RunOne (Accept 0); EvWritable (Accept 2); EvWritable AcceptAll; RunOne (Accept 0);
+    RunOne AcceptAll ] /\
+  exists c e e', run (init 4%N true true) ex_faulty = Ok (c, e) /\
+    run (init 4%N true true) (flat_map calm ex_faulty) = Ok (c, e') /\
+    wire c = [x61; x62; x63; x64] /\ outb c = [] /\
+    quiet e = [EvUp; EvHWM 4; EvWC] /\ quiet e' = [EvUp; EvHWM 4; EvWC] /\
+    env_ok_run (init 4%N true true) ex_faulty.
+Proof. split; [reflexivity|]. vm_compute. eexists _, _, _. repeat split. Qed.
